@@ -365,13 +365,15 @@ impl HitObjectsState {
     }
 
     fn post_process_breaks(hit_objects: &mut [HitObject], events: &Events) {
+        // The breaks are not necessarily listed in chronological order
+        let mut break_ends: Vec<_> = events.breaks.iter().map(|b| b.end_time).collect();
+        break_ends.sort_by(f64::total_cmp);
+
         let mut curr_break = 0;
         let mut force_new_combo = false;
 
         for h in hit_objects.iter_mut() {
-            while curr_break < events.breaks.len()
-                && events.breaks[curr_break].end_time < h.start_time
-            {
+            while curr_break < break_ends.len() && break_ends[curr_break] < h.start_time {
                 force_new_combo = true;
                 curr_break += 1;
             }
